@@ -152,6 +152,13 @@ func (s *vSource) Ack(ctx context.Context, positions []opencdc.Position) error {
 		verifAssert(i >= 0 && i < w.N, "c04-ack-of-unknown-position")
 		verifAssert(i == len(s.acked), "c04-ack-order")
 		verifAssert(w.handled(i), "c01-ack-before-confirmation")
+		if i >= 0 && i < w.N && !w.handled(i) {
+			// the same event seen from the failure-handling side: a record that a
+			// destination rejected / a processor failed is acknowledged although it
+			// was never stored in the DLQ
+			verifAssert(!w.rejected(i), "c07-rejected-record-acked-without-dlq")
+			verifAssert(!w.errored[i], "c08-failed-record-acked-without-dlq")
+		}
 		s.acked = append(s.acked, i)
 	}
 	return nil
@@ -174,6 +181,22 @@ func (w *vWorld) handled(i int) bool {
 		}
 	}
 	return true
+}
+
+// rejected says whether a destination negatively acknowledged (a piece of)
+// record i or a processor failed it.
+func (w *vWorld) rejected(i int) bool {
+	if w.errored[i] {
+		return true
+	}
+	for _, d := range w.dests {
+		for _, l := range w.leaves[i] {
+			if d.nacked[l] {
+				return true
+			}
+		}
+	}
+	return false
 }
 
 // ---- processor ----
@@ -333,6 +356,17 @@ func (d *vDest) Write(ctx context.Context, recs []opencdc.Record) error {
 			// C05: per-source order at every destination, no record written twice
 			i := vRoot(k)
 			verifAssert(i >= 0 && i < w.N, "c05-unknown-record-written")
+			// C08: only the pieces the processors produced for a record are delivered
+			// (not a record a stage filtered out, nor the original of a split record)
+			if i >= 0 && i < w.N && !w.allowBadShapes {
+				isLeaf := false
+				for _, l := range w.leaves[i] {
+					if l == k {
+						isLeaf = true
+					}
+				}
+				verifAssert(isLeaf, "c08-delivered-record-is-not-a-processor-output")
+			}
 			for _, prev := range d.writes {
 				verifAssert(prev != k, "c05-record-written-twice")
 			}
